@@ -483,13 +483,28 @@ fn flash_run(ctx: &Ctx, rng: &mut Rng, is128: bool, st: &mut St) {
     quiet(&mut m);
     m.run_frames(2 + rng.below(20) as usize);
     let mut phases = vec![];
+    // somewhere in the run the host reloads the very same machine state from a snapshot (SZX with
+    // its frame position, or SNA): the bytes on screen do not change, so neither does the rhythm
+    let reload_at = if rng.chance(3, 4) { Some(3 + rng.below(40)) } else { None };
     for f in 0..56 {
+        if reload_at == Some(f) {
+            let c = crate::spec_snap::capture(&mut m);
+            let a = crate::spec_snap::Abs { is128, r: c.r, ei_last: false, border: c.border, latch: c.latch & 0x1F, pages: c.pages, ay: None, mouse: None, keyb: None, cycles: c.clock as u32, fe_hi: 0 };
+            let ok = if rng.chance(2, 3) || !is128 && c.r.sp < 0x4002 {
+                crate::spec_snap::load_szx(&mut m, &crate::spec_snap::write_szx(&a, &crate::spec_snap::SzxOpts::plain(), rng))
+            } else {
+                crate::spec_snap::load_sna(&mut m, &crate::spec_snap::write_sna(&a))
+            };
+            if !matches!(ok, Ok(Ok(()))) {
+                return; // loaders are C14's and C15's business
+            }
+        }
         m.run_frames(1);
         st.frames += 1;
         match matches(&m, &scr) {
             Some(p) => phases.push(p),
             None => {
-                ctx.violation("canvas:flash:mixed-phase", &format!("frame {}: FLASH cells are neither all normal nor all swapped: {}", f, first_diff(&m, &scr)), jobj! {"is128"=>is128,"frame"=>f});
+                ctx.violation("canvas:flash:mixed-phase", &format!("frame {}: FLASH cells are neither all normal nor all swapped: {}", f, first_diff(&m, &scr)), jobj! {"is128"=>is128,"frame"=>f,"state_reloaded_before_frame"=>reload_at.map(|x| x as i64).unwrap_or(-1)});
                 return;
             }
         }
@@ -508,7 +523,7 @@ fn flash_run(ctx: &Ctx, rng: &mut Rng, is128: bool, st: &mut St) {
     runs.push(len);
     let inner_ok = runs.len() >= 3 && runs[1..runs.len() - 1].iter().all(|r| *r == 16) && runs[0] <= 16 && *runs.last().unwrap() <= 16;
     if !inner_ok {
-        ctx.violation("canvas:flash:period", &format!("FLASH phase run lengths over 56 frames are {:?}; the phase must flip exactly every 16 frames", runs), jobj! {"is128"=>is128,"runs"=>format!("{:?}", runs)});
+        ctx.violation("canvas:flash:period", &format!("FLASH phase run lengths over 56 frames are {:?}; the phase must flip exactly every 16 frames{}", runs, reload_at.map(|x| format!(" (the same state was reloaded from a snapshot before frame {})", x)).unwrap_or_default()), jobj! {"is128"=>is128,"runs"=>format!("{:?}", runs)});
     }
 }
 
@@ -601,7 +616,7 @@ pub fn run(ctx: &Ctx) -> Evidence {
             let mut rng = Rng::fork(ctx.seed ^ 0xC08B, case);
             beam_case(ctx, &mut rng, case % 2 == 1, &mut st, case);
         }
-        if sh < 4 {
+        if sh < 16 {
             let mut rng = Rng::fork(ctx.seed ^ 0xC08F, sh as u64);
             flash_run(ctx, &mut rng, sh % 2 == 1, &mut st);
         }
